@@ -337,4 +337,63 @@ Section Items.
     - eapply pbind_rel; [apply rel_minimum_contribution; eassumption|]. intros [v g1] [v' g1'] [Hvv Hg1]. cbn [fst snd] in Hvv, Hg1. constructor.
       split; cbn [fst snd]; [exact Hvv|apply rel_set_ic_minimum; [exact Hg1|exact Hvv]].
   Qed.
+  (* ---- 7. IntrisicSizeMeasurer *)
+  Lemma rel_margin_ax ax inner inner' g g' : sz_rel O inner inner' -> gitem_rel k g g' -> L (margin_ax ax inner g) (margin_ax ax inner' g').
+  Proof. intros Hin Hg. unfold margin_ax. apply rel_get_ax. apply rel_item_margin_sums; [apply Hin|exact Hg]. Qed.
+
+  Lemma rel_m_min_content ax inner inner' fp ot ot' oadj oadj' g g' :
+    sz_rel O inner inner' -> tracks_rel k ot ot' -> L oadj oadj' -> gitem_rel k g g' ->
+    ProgRel k VI (m_min_content ax inner fp ot oadj g) (m_min_content ax inner' fp ot' oadj' g').
+  Proof.
+    intros Hin Hot Hadj Hg. unfold m_min_content.
+    pose proof (rel_avail_cached ax inner inner' fp ot ot' oadj oadj' g g' Hin Hot Hadj Hg) as Hac.
+    destruct (avail_cached ax inner fp ot oadj g) as [space g0], (avail_cached ax inner' fp ot' oadj' g') as [space' g0'].
+    destruct Hac as [Hsp Hg0]. cbn [fst snd] in Hsp, Hg0.
+    eapply pbind_rel; [apply rel_min_content_contribution_cached; eassumption|].
+    intros [v g1] [v' g1'] [Hv Hg1]. cbn [fst snd] in Hv, Hg1. constructor. split; cbn [fst snd]; [|exact Hg1].
+    apply sc_add; [exact Hv|apply rel_margin_ax; assumption].
+  Qed.
+  Lemma rel_m_max_content ax inner inner' fp ot ot' oadj oadj' g g' :
+    sz_rel O inner inner' -> tracks_rel k ot ot' -> L oadj oadj' -> gitem_rel k g g' ->
+    ProgRel k VI (m_max_content ax inner fp ot oadj g) (m_max_content ax inner' fp ot' oadj' g').
+  Proof.
+    intros Hin Hot Hadj Hg. unfold m_max_content.
+    pose proof (rel_avail_cached ax inner inner' fp ot ot' oadj oadj' g g' Hin Hot Hadj Hg) as Hac.
+    destruct (avail_cached ax inner fp ot oadj g) as [space g0], (avail_cached ax inner' fp ot' oadj' g') as [space' g0'].
+    destruct Hac as [Hsp Hg0]. cbn [fst snd] in Hsp, Hg0.
+    eapply pbind_rel; [apply rel_max_content_contribution_cached; eassumption|].
+    intros [v g1] [v' g1'] [Hv Hg1]. cbn [fst snd] in Hv, Hg1. constructor. split; cbn [fst snd]; [|exact Hg1].
+    apply sc_add; [exact Hv|apply rel_margin_ax; assumption].
+  Qed.
+  Lemma rel_m_minimum ax inner inner' fp ot ot' oadj oadj' g g' ts ts' :
+    sz_rel O inner inner' -> tracks_rel k ot ot' -> L oadj oadj' -> gitem_rel k g g' -> tracks_rel k ts ts' ->
+    ProgRel k VI (m_minimum ax inner fp ot oadj g ts) (m_minimum ax inner' fp ot' oadj' g' ts').
+  Proof.
+    intros Hin Hot Hadj Hg Hts. unfold m_minimum.
+    pose proof (rel_avail_cached ax inner inner' fp ot ot' oadj oadj' g g' Hin Hot Hadj Hg) as Hac.
+    destruct (avail_cached ax inner fp ot oadj g) as [space g0], (avail_cached ax inner' fp ot' oadj' g') as [space' g0'].
+    destruct Hac as [Hsp Hg0]. cbn [fst snd] in Hsp, Hg0.
+    eapply pbind_rel; [apply rel_minimum_contribution_cached; eassumption|].
+    intros [v g1] [v' g1'] [Hv Hg1]. cbn [fst snd] in Hv, Hg1. constructor. split; cbn [fst snd]; [|exact Hg1].
+    apply sc_add; [exact Hv|apply rel_margin_ax; assumption].
+  Qed.
+
+  (* ---- 8. the minimum space of steps 2 and 3.1 *)
+  Lemma rel_avail_is_intrinsic a a' : gavail_rel k a a' -> avail_is_intrinsic a' = avail_is_intrinsic a.
+  Proof. destruct a, a'; cbn; intros; try contradiction; reflexivity. Qed.
+
+  Lemma rel_m_intrinsic_minimum_space ax inner inner' avail avail' fp ot ot' oadj oadj' g g' ts ts' (limit limit' : @GItem XQ -> option XQ) :
+    sz_rel O inner inner' -> gavail_rel k avail avail' -> tracks_rel k ot ot' -> L oadj oadj' -> gitem_rel k g g' -> tracks_rel k ts ts' ->
+    (forall g g', gitem_rel k g g' -> O (limit g) (limit' g')) ->
+    ProgRel k VI (m_intrinsic_minimum_space ax inner avail fp ot oadj g ts limit)
+                 (m_intrinsic_minimum_space ax inner' avail' fp ot' oadj' g' ts' limit').
+  Proof.
+    intros Hin Hav Hot Hadj Hg Hts Hlim. unfold m_intrinsic_minimum_space.
+    rewrite (rel_avail_is_intrinsic _ _ Hav), (rel_g_scroll ax g g' Hg).
+    destruct (avail_is_intrinsic avail && negb (g_scroll ax g)); [|apply rel_m_minimum; assumption].
+    eapply pbind_rel; [apply rel_m_minimum; eassumption|]. intros [mn g1] [mn' g1'] [Hmn Hg1]. cbn [fst snd] in Hmn, Hg1.
+    eapply pbind_rel; [apply rel_m_min_content; eassumption|]. intros [mc g2] [mc' g2'] [Hmc Hg2]. cbn [fst snd] in Hmc, Hg2.
+    constructor. split; cbn [fst snd]; [|exact Hg2].
+    apply (sc_max k); [exact Hk| |exact Hmn]. apply (rel_maybe_min_fo k Hk); [exact Hmc|apply Hlim; exact Hg2].
+  Qed.
 End Items.
